@@ -274,8 +274,27 @@ def run_tlc(module, cfg=None, modules_dir=None, extra_files=(), env=None, worker
         t = time.time()
         p = subprocess.Popen(cmd, cwd=run_dir, env=e, stdout=subprocess.PIPE, stderr=subprocess.STDOUT, text=True, bufsize=1 << 20)
         tail = []
+        pending = None   # TLC's pretty printer wraps very long tuples:  << "TAG",\n   "payload" >>
         for line in p.stdout:
             line = line.rstrip("\n")
+            if pending is not None:
+                pending.append(line.strip())
+                if line.endswith(">>"):
+                    joined = " ".join(pending)
+                    pending = None
+                    m2 = re.match(r'^<< "([A-Z0-9_]+)", (.*) >>$', joined)
+                    if m2:
+                        rest = m2.group(2)
+                        if rest.startswith('"') and rest.endswith('"'):
+                            rest = _untla(rest[1:-1])
+                        if line_cb:
+                            line_cb(m2.group(1), rest)
+                        else:
+                            res.printed.append((m2.group(1), rest))
+                continue
+            if re.match(r'^<< "[A-Z0-9_]+",$', line):
+                pending = [line]
+                continue
             if line.startswith("<<\""):
                 pr = parse_printed(line)
                 if pr:
